@@ -188,6 +188,7 @@ pub fn run(args: &[String]) {
   let seed = arg_u64(args, 0, 1);
   let n_pw = arg_u64(args, 1, 12) as usize;
   let n_pt = arg_u64(args, 2, 4) as usize;
+  let n_other = arg_u64(args, 3, 12) as usize; // directions on which GaussLegendre / AdaptiveSimpson are run too (slow)
   let mut rng = Rng::new(seed);
   let integ = Integrator::default();
   emit(json!({"kind": "default_integrator", "debug": format!("{:?}", integ)}));
@@ -315,15 +316,25 @@ pub fn run(args: &[String]) {
         let mut samples = vec![];
         let (a0, b0) = at(t0);
         let big = Integrator::Simpson { divs: 130 };
+        // the other quadratures of Integrator::integrate on the same (complex-valued) integrand
+        let gl = Integrator::GaussLegendre { degree: 40 };
+        let ads = Integrator::AdaptiveSimpson { tolerance: 1e-9, max_depth: 20 };
+        let with_others = made < n_other;
+        let others = |a: Frequency, b: Frequency| -> Option<(Complex<f64>, Complex<f64>)> {
+          if !with_others {
+            return None;
+          }
+          Some((*(phasematch_fiber_coupling(a, b, &spdc, gl) / PerMeter4::new(1.)), *(phasematch_fiber_coupling(a, b, &spdc, ads) / PerMeter4::new(1.))))
+        };
         let f_pm = *(phasematch_fiber_coupling(a0, b0, &spdc, integ) / PerMeter4::new(1.));
         let f_pm_big = *(phasematch_fiber_coupling(a0, b0, &spdc, big) / PerMeter4::new(1.));
-        samples.push((t0, g(t0), f_pm, f_pm_big));
+        samples.push((t0, g(t0), f_pm, f_pm_big, others(a0, b0)));
         for target in targets.iter() {
           if let Some(t) = solve(*target) {
             let (a, b) = at(t);
             let v = *(phasematch_fiber_coupling(a, b, &spdc, integ) / PerMeter4::new(1.));
             let vb = *(phasematch_fiber_coupling(a, b, &spdc, big) / PerMeter4::new(1.));
-            samples.push((t, g(t), v, vb));
+            samples.push((t, g(t), v, vb, others(a, b)));
           }
         }
         Some(samples)
@@ -334,7 +345,8 @@ pub fn run(args: &[String]) {
           let zs = [0.0];
           let (a0, b0) = at(samples[0].0);
           let p = dump_params(&spdc, a0, b0, &zs);
-          let ss: Vec<Value> = samples.iter().map(|(t, ff, v, vb)| json!({"t": fx(*t), "ff": fx(*ff), "v": cx(*v), "v130": cx(*vb)})).collect();
+          let ss: Vec<Value> = samples.iter().map(|(t, ff, v, vb, o)| json!({"t": fx(*t), "ff": fx(*ff), "v": cx(*v), "v130": cx(*vb),
+            "v_gl40": o.map(|x| cx(x.0)), "v_adaptive": o.map(|x| cx(x.1))})).collect();
           emit(json!({"kind": "pw", "setup": desc, "dir_rad": ang, "p": p, "samples": ss,
             "theta_c_deg": *(spdc.crystal_setup.theta / DEG)}));
         }
